@@ -165,14 +165,23 @@ pub struct KeyMetadata {
     pub derivation_path: Option<String>,
 }
 
+/// A decrypted seed held in memory together with a keyed tag of the password that
+/// opened it, so that the cache answers only callers presenting that password.
+struct CachedSeed {
+    seed: SecureMemory,
+    password_tag: [u8; 32],
+}
+
 /// Key storage manager
 pub struct EncryptedKeyStorageManager {
     /// Storage file path
     storage_path: PathBuf,
     /// Argon2id configuration
     argon2_config: Argon2Config,
-    /// In-memory cache of decrypted keys
-    key_cache: Arc<RwLock<HashMap<String, SecureMemory>>>,
+    /// In-memory cache of decrypted keys, each bound to the password it was opened with
+    key_cache: Arc<RwLock<HashMap<String, CachedSeed>>>,
+    /// Per-manager random key of the password tags in `key_cache`
+    cache_tag_key: [u8; 32],
     // Removed insecure password cache that bypassed password validation
     /// Background key derivation tasks
     _background_tasks: Arc<AsyncRwLock<HashMap<String, tokio::task::JoinHandle<Result<()>>>>>,
@@ -333,6 +342,11 @@ impl EncryptedKeyStorageManager {
             storage_path,
             argon2_config,
             key_cache: Arc::new(RwLock::new(HashMap::new())),
+            cache_tag_key: {
+                let mut key = [0u8; 32];
+                RngCore::fill_bytes(&mut thread_rng(), &mut key);
+                key
+            },
             _background_tasks: Arc::new(AsyncRwLock::new(HashMap::new())),
             stats: Arc::new(Mutex::new(StorageStats::default())),
             _security_level: security_level,
@@ -433,7 +447,10 @@ impl EncryptedKeyStorageManager {
             })?;
             cache.insert(
                 seed_id.to_string(),
-                SecureMemory::from_slice(master_seed.seed_material())?,
+                CachedSeed {
+                    seed: SecureMemory::from_slice(master_seed.seed_material())?,
+                    password_tag: self.password_tag(password),
+                },
             );
         }
 
@@ -467,14 +484,21 @@ impl EncryptedKeyStorageManager {
                     "read lock failed".to_string().into(),
                 ))
             })?;
-            if let Some(cached_seed) = cache.get(seed_id) {
+            // A cached seed is served only to the password that decrypted it; any other
+            // password takes the slow path and fails there like on a cold cache.
+            if let Some(cached_seed) = cache.get(seed_id)
+                && bool::from(subtle::ConstantTimeEq::ct_eq(
+                    &cached_seed.password_tag[..],
+                    &self.password_tag(password)[..],
+                ))
+            {
                 let mut stats = self.stats.lock().map_err(|_| {
                     P2PError::Storage(StorageError::LockPoisoned(
                         "mutex lock failed".to_string().into(),
                     ))
                 })?;
                 stats.cache_hits += 1;
-                return MasterSeed::from_entropy(cached_seed.as_slice());
+                return MasterSeed::from_entropy(cached_seed.seed.as_slice());
             }
         }
 
@@ -496,7 +520,13 @@ impl EncryptedKeyStorageManager {
                     "write lock failed".to_string().into(),
                 ))
             })?;
-            cache.insert(seed_id.to_string(), SecureMemory::from_slice(seed_bytes)?);
+            cache.insert(
+                seed_id.to_string(),
+                CachedSeed {
+                    seed: SecureMemory::from_slice(seed_bytes)?,
+                    password_tag: self.password_tag(password),
+                },
+            );
         }
 
         // Update statistics
@@ -563,6 +593,18 @@ impl EncryptedKeyStorageManager {
         }
 
         Ok(())
+    }
+
+    /// Keyed tag of a password (key is random per manager and never leaves memory)
+    fn password_tag(&self, password: &SecureString) -> [u8; 32] {
+        let bytes = password
+            .as_str()
+            .map(|s| s.as_bytes().to_vec())
+            .unwrap_or_default();
+        let tag = *blake3::keyed_hash(&self.cache_tag_key, &bytes).as_bytes();
+        let mut bytes = bytes;
+        zeroize::Zeroize::zeroize(&mut bytes);
+        tag
     }
 
     /// Validate password strength
